@@ -29,11 +29,13 @@ def harmlessWrite (w : String × String × String × String × String) : Bool :=
 theorem shared_state_justified : GGV.Gen.packageVarWrites.all harmlessWrite = true := by decide +kernel
 
 /-- no package-level variable has a map, slice or pointer-to-struct type that a checker fills at run time:
-    the variables are the analyzers, the regexes, the matchers, the two code tables, the config cache -/
+    the variables are the analyzers, the regexes, the matchers, the two code tables, the config cache — or tables of
+    read-only data (T6: never written, built from basic types / structs / arrays / slices, slices only ever read) -/
 theorem shared_state_inventory :
     GGV.Gen.packageVars.all (fun v =>
       v.2 == "*analysis.Analyzer" || v.2 == "*regexp.Regexp" || v.2 == "*ahocorasick.Matcher" ||
-      v.2 == "map[string][]codes.Code" || v.2 == "map[string][]string" || v.2 == "*config.Config" || v.2 == "sync.Once") = true := by decide
+      v.2 == "map[string][]codes.Code" || v.2 == "map[string][]string" || v.2 == "*config.Config" || v.2 == "sync.Once" ||
+      v.2 == "read-only data") = true := by decide
 
 /-- **lookups do not write**: of the methods that the checkers — which run concurrently on one package and share
     the readers' results (the ignore set, the annotations, the configuration) — call on reader / utility types,
